@@ -7,8 +7,9 @@ import (
 )
 
 // extractStream: stream/io_chan.go
-//   read_early    — the first test of ChanReader.Read after the copy from the carry buffer
-//   writer_copies — whether ChanWriter.Write sends a fresh copy of the caller's buffer
+//
+//	read_early    — the first test of ChanReader.Read after the copy from the carry buffer
+//	writer_copies — whether ChanWriter.Write sends a fresh copy of the caller's buffer
 func extractStream(repo string, o *out) {
 	const lastEarly = "(n =? o)"
 	p, err := loadPkg(filepath.Join(repo, "stream"))
